@@ -234,6 +234,7 @@ def _task(args):
 
     def rec(ds, ref, program, d, tags):
         st['states'] += 1
+        common.gc_tick(50)
 
         def report(kind, detail):
             key = kind + ''.join('@' + t for t in sorted(tags))
